@@ -1,5 +1,6 @@
 import Drv.Common
 import Drv.Args
+import Drv.Store
 open Lean
 
 def handle (line : String) : String :=
@@ -12,6 +13,8 @@ def handle (line : String) : String :=
       | "hash" => Drv.opHash j
       | "auth" => Drv.opAuth j
       | "overlap" => Drv.opOverlap j
+      | "storeops" => Drv.opStoreOps j
+      | "cacheopt" => Drv.opCacheOpt j
       | "argctx" => Drv.opArgCtx j
       | "leafsig" => Drv.opLeafSig j
       | _ => .error s!"unknown op {op}"
